@@ -547,5 +547,22 @@ fn main() {
             both_placements(&run, t, &format!("2nb{}", a), &format!("2nb{}", b));
         }
     });
+    // (e) character sweep: every ASCII character and 64 non-ASCII characters chosen per Unicode
+    // behaviour (case mappings into ASCII, digits of other scripts, every white-space character,
+    // combining marks, 2/3/4-byte encodings) in seven positions of a version, against eight probes
+    let chars: Vec<char> = mc_core::chars::all().into_iter().filter(|c| !"-<>{}=".contains(*c)).collect();
+    run.bound(format!("(e) {} characters x 7 version shapes x 8 probes x 4 operators x 2 placements", chars.len()));
+    par_items(&run, "C01(e) character sweep", &chars, |_, c, t| {
+        let shapes = [
+            format!("{}", c), format!("1{}", c), format!("{}1", c), format!("1{}1", c), format!("1.{}{}", c, c), format!("1{}nb2", c), format!("1nb{}", c),
+        ];
+        for v in &shapes {
+            for p in ["", "1", "1.0", "1a", "1nb1", "2", "1.1", "0"] {
+                t.states += 1;
+                t.transitions += 1;
+                both_placements(&run, t, v, p);
+            }
+        }
+    });
     run.finish();
 }
